@@ -2,8 +2,10 @@
 Model/CallArgs.lean — (C17) the inputs that are not attribute values of the value grammar, exactly as coded:
 
   1. `SetterForm`: an analysis of the regenerated statement tree of EVERY property setter (Gen/Setters.lean): the events
-     "may reject the input" / "changes object state" along every path through the body (loops unrolled 0, 1 and 2 times);
-     a setter has the form validate-then-assign when on no path a state change precedes a point of rejection.
+     "may reject the input" / "changes object state" along every path through the body (loops unrolled 0, 1 and 2 times; a private helper
+     of the same class called as a statement is inlined); a rejected assignment changes nothing when at every point of rejection either
+     nothing has been written yet (validate-then-assign) or the point lies in a `try` whose handler puts back every write so far and
+     re-raises (assign-under-restore; the handler's statements are analysed: saved references, loops over the same iterable, recomputations).
   2. `checkPixelAgg`: `check_format_pixel_agg` over a table of numpy names (regenerated from the installed numpy,
      Gen/NpNames.lean): `getattr(np, name)` and `isinstance(func(x), numbers.Number)`.
   3. `validateFieldFunc`: `validate_field_func` (None | callable with args (field, observers, …) whose results for 'B' and 'H'
@@ -42,31 +44,56 @@ def raisingCallees : List String :=
    "check_format_input_cylinder_segment", "check_format_input_orientation", "validate_field_func",
    "self._validate_style", "format_obj_input", "self.add", "inp.add", "self._parent.remove"]
 
-/-- calls that change object state -/
+/-- calls that change object state (`self._update_src_and_sens` recomputes the typed views from `_children`: calling it again
+after `_children` was put back undoes it) -/
 def mutatingCallees : List String :=
   ["self.add", "inp.add", "self._parent.remove", "self._update_src_and_sens", "child.rotate"]
 
 /-- calls that neither reject the input nor change object state: type tests, numpy / scipy conversions of already validated
-data, appends to a local list, and the low-magnetization *warning* (not an exception unless the user escalates warnings:
-then it raises after both attributes were written — C02 `warned_assignment_writes_state`) -/
+data, copies and appends of local lists, and the low-magnetization *warning* (not an exception unless the user escalates
+warnings: then it raises after both attributes were written — C02 `warned_assignment_writes_state`) -/
 def quietCallees : List String :=
-  ["isinstance", "getattr", "range", "pad_slice_path", "R.from_quat", "np.squeeze", "np.linalg.norm",
-   "self._orientation.as_quat", "old_ori_pad.inv", "new_children.append", "self._magnetization_low_warning"]
+  ["isinstance", "getattr", "range", "list", "any", "pad_slice_path", "R.from_quat", "np.squeeze", "np.linalg.norm",
+   "self._orientation.as_quat", "old_ori_pad.inv", "new_children.append", "warnings.warn"]
 
 /-- every call name of a setter must be known to the analysis -/
 def classified (c : String) : Bool :=
   raisingCallees.contains c || mutatingCallees.contains c || quietCallees.contains c
 
+/-- a write of an exception handler, in source order -/
+inductive HW where
+  /-- `obj.attr = local` -/
+  | restore (target loc : String)
+  /-- `<loop element>.attr = …` -/
+  | assignElem (target : String)
+  /-- `obj.attr = <another expression>` -/
+  | assign (target : String)
+  /-- a state-changing call -/
+  | call (callee : String)
+  deriving Repr, DecidableEq
+
 inductive Ev where
-  /-- a point where the method can be left with an exception caused by the assigned value -/
+  /-- a point where the method can be left with an exception caused by the assigned value, no handler around it -/
   | mayRaise (what : String)
-  /-- a change of object state -/
+  /-- such a point inside a `try` whose handler performs the writes `handler` and re-raises -/
+  | mayRaiseR (what : String) (handler : List HW)
+  /-- a change of object state: an attribute is rebound, or a state-changing method is called -/
   | mutate (what : String)
+  /-- an attribute of every element of a loop's iterable is rebound -/
+  | mutateElem (what : String)
+  /-- `loc = src`: a local name now refers to the attribute's value (`src = ""`: the local was assigned something else) -/
+  | save (loc src : String)
   deriving Repr, DecidableEq
 
 def Ev.isRaise : Ev → Bool
   | .mayRaise _ => true
-  | .mutate _ => false
+  | .mayRaiseR _ _ => true
+  | _ => false
+
+def Ev.isWrite : Ev → Bool
+  | .mutate _ => true
+  | .mutateElem _ => true
+  | _ => false
 
 /-- a rejecting call is entered before it changes anything -/
 def calleeEvs (c : String) : List Ev :=
@@ -74,55 +101,158 @@ def calleeEvs (c : String) : List Ev :=
 
 def callsEvs (cs : List String) : List Ev := cs.flatMap calleeEvs
 
-/-- a path: its events, and whether it left the method (return / raise) -/
-abbrev Path := List Ev × Bool
+/-- how a path ends -/
+inductive End where
+  | open | returned | raised
+  deriving Repr, DecidableEq
+
+/-- a path: its events, and whether it left the method -/
+abbrev Path := List Ev × End
 
 /-- sequential composition of path sets -/
 def seqPaths (ps rest : List Path) : List Path :=
-  ps.flatMap fun p => if p.2 then [p] else rest.map fun q => (p.1 ++ q.1, q.2)
+  ps.flatMap fun p => if p.2 != End.open then [p] else rest.map fun q => (p.1 ++ q.1, q.2)
 
 mutual
-def pathsS : Stmt → List Path
-  | .assign t isAttr cs => [(callsEvs cs ++ (if isAttr then [Ev.mutate t] else []), false)]
-  | .expr cs => [(callsEvs cs, false)]
-  | .raise exc => [([Ev.mayRaise exc], true)]
-  | .ret cs => [(callsEvs cs, true)]
-  | .ite cs thn els => seqPaths [(callsEvs cs, false)] (pathsL thn ++ pathsL els)
-  | .loop cs body =>
-    seqPaths [(callsEvs cs, false)] ([([], false)] ++ pathsL body ++ seqPaths (pathsL body) (pathsL body))
-  | .skip _ => [([], false)]
-def pathsL : List Stmt → List Path
-  | [] => [([], false)]
-  | s :: r => seqPaths (pathsS s) (pathsL r)
+/-- the writes of a handler in source order (branches are not looked into: a handler with a branch is not accepted) -/
+def hwsS : Stmt → List HW
+  | .assign t isAttr cs => (cs.filter mutatingCallees.contains).map HW.call ++ (if isAttr then [HW.assign t] else [])
+  | .assignElem t cs => (cs.filter mutatingCallees.contains).map HW.call ++ [HW.assignElem t]
+  | .restore t l => [HW.restore t l]
+  | .expr cs => (cs.filter mutatingCallees.contains).map HW.call
+  | .loop cs body => (cs.filter mutatingCallees.contains).map HW.call ++ hwsL body
+  | _ => []
+def hwsL : List Stmt → List HW
+  | [] => []
+  | s :: r => hwsS s ++ hwsL r
 end
 
 mutual
 def calleesS : Stmt → List String
   | .assign _ _ cs => cs
+  | .assignElem _ cs => cs
+  | .save _ _ => []
+  | .restore _ _ => []
   | .expr cs => cs
   | .raise _ => []
   | .ret cs => cs
   | .ite cs thn els => cs ++ calleesL thn ++ calleesL els
   | .loop cs body => cs ++ calleesL body
+  | .tryExcept body _ h => calleesL body ++ calleesL h
+  | .inline _ cs body => cs ++ calleesL body
   | .skip _ => []
 def calleesL : List Stmt → List String
   | [] => []
   | s :: r => calleesS s ++ calleesL r
 end
 
+mutual
+/-- only assignments, calls and loops over them -/
+def straightS : Stmt → Bool
+  | .assign _ _ _ => true
+  | .assignElem _ _ => true
+  | .save _ _ => true
+  | .restore _ _ => true
+  | .expr _ => true
+  | .loop _ body => straightL body
+  | .skip _ => true
+  | _ => false
+def straightL : List Stmt → Bool
+  | [] => true
+  | s :: r => straightS s && straightL r
+end
+
+/-- the attribute writes of a handler come before its recomputations (`self._update_src_and_sens()` after `self._children = …`) -/
+def hwOrdered : List HW → Bool
+  | [] => true
+  | .call _ :: r => r.all (fun w => match w with | .call _ => true | _ => false)
+  | _ :: r => hwOrdered r
+
+/-- a handler that can count as a restore: it catches every exception, consists of straight-line writes that cannot themselves reject,
+attribute writes before recomputations, and ends by re-raising -/
+def goodHandler (excType : String) (h : List Stmt) : Bool :=
+  (excType == "Exception" || excType == "BaseException") &&
+  (match h.getLast? with
+   | some (.raise exc) => exc == ""
+   | _ => false) &&
+  straightL h.dropLast && (calleesL h).all (fun c => !raisingCallees.contains c) && hwOrdered (hwsL h)
+
+/-- inside a `try` with a restoring handler a point of rejection becomes a point of rejection under restore -/
+def underRestore (h : List HW) : Ev → Ev
+  | .mayRaise w => .mayRaiseR w h
+  | e => e
+
+mutual
+def pathsS : Stmt → List Path
+  | .assign t isAttr cs => [(callsEvs cs ++ (if isAttr then [Ev.mutate t] else [Ev.save t ""]), End.open)]
+  | .assignElem t cs => [(callsEvs cs ++ [Ev.mutateElem t], End.open)]
+  | .save l src => [([Ev.save l src], End.open)]
+  | .restore t _ => [([Ev.mutate t], End.open)]
+  | .expr cs => [(callsEvs cs, End.open)]
+  | .raise exc => [([Ev.mayRaise exc], End.raised)]
+  | .ret cs => [(callsEvs cs, End.returned)]
+  | .ite cs thn els => seqPaths [(callsEvs cs, End.open)] (pathsL thn ++ pathsL els)
+  | .loop cs body =>
+    seqPaths [(callsEvs cs, End.open)] ([([], End.open)] ++ pathsL body ++ seqPaths (pathsL body) (pathsL body))
+  | .tryExcept body excType h =>
+    -- the paths on which the handler runs are the prefixes of these up to a point of rejection: the check below looks at every
+    -- point of rejection of a path, so the prefixes need not be listed; a handler that is not a restore leaves the points as they are
+    if goodHandler excType h then (pathsL body).map fun p => (p.1.map (underRestore (hwsL h)), p.2) else pathsL body
+  | .inline _ cs body =>
+    seqPaths [(callsEvs cs, End.open)] ((pathsL body).map fun p => (p.1, if p.2 == End.returned then End.open else p.2))
+  | .skip _ => [([], End.open)]
+def pathsL : List Stmt → List Path
+  | [] => [([], End.open)]
+  | s :: r => seqPaths (pathsS s) (pathsL r)
+end
+
 /-- validate-then-assign along one path: after the first state change there is no point of rejection -/
 def vta : List Ev → Bool
   | [] => true
-  | .mayRaise _ :: r => vta r
   | .mutate _ :: r => r.all fun e => !e.isRaise
+  | .mutateElem _ :: r => r.all fun e => !e.isRaise
+  | _ :: r => vta r
 
-/-- the setter is of the form validate-then-assign: every call is known, and on every path through the body
-(loops 0, 1, 2 times) no state change precedes a point of rejection -/
-def form (s : Setter) : Bool :=
+/-- does the handler `h` undo the write `e`, given the references `saved` (local, attribute) taken before the attribute was written:
+a recomputation is undone by calling it again; a rebound attribute by assigning the saved reference back; the attribute of every element of an
+iterable by a loop over the same iterable that assigns it (the value it assigns is not examined: for `child._parent = self` it is the
+collection's invariant that the removed children had this parent — C11) -/
+def covered (saved : List (String × String)) (h : List HW) : Ev → Bool
+  | .mutate t =>
+    if mutatingCallees.contains t then h.contains (.call t)
+    else h.any fun w => match w with
+      | .restore t' l => t' == t && saved.contains (l, t)
+      | _ => false
+  | .mutateElem t => h.contains (.assignElem t)
+  | _ => true
+
+/-- rejection without change along one path: at a plain point of rejection nothing has been written; at a point of rejection under restore
+every write so far is undone by the handler.  `dirty`: the writes so far; `saved`: the references to attribute values taken before the
+attribute was written and not reassigned since -/
+def rwcAux (dirty : List Ev) (saved : List (String × String)) : List Ev → Bool
+  | [] => true
+  | .mayRaise _ :: r => dirty.isEmpty && rwcAux dirty saved r
+  | .mayRaiseR _ h :: r => dirty.all (covered saved h) && rwcAux dirty saved r
+  | .save l src :: r =>
+    let kept := saved.filter fun p => p.1 != l
+    rwcAux dirty (if src == "" || dirty.contains (.mutate src) then kept else (l, src) :: kept) r
+  | .mutate t :: r => rwcAux (.mutate t :: dirty) saved r
+  | .mutateElem t :: r => rwcAux (.mutateElem t :: dirty) saved r
+
+def rwc (evs : List Ev) : Bool := rwcAux [] [] evs
+
+/-- every call is known and the setter is of the form validate-then-assign: on every path through the body (loops 0, 1, 2 times)
+no state change precedes a point of rejection -/
+def vtaForm (s : Setter) : Bool :=
   (calleesL s.body).all classified && (pathsL s.body).all fun p => vta p.1
 
-/-- the paths of a setter on which a state change precedes a point of rejection -/
-def badPaths (s : Setter) : List Path := (pathsL s.body).filter fun p => !vta p.1
+/-- every call is known and a rejected assignment changes nothing: on every path, at every point of rejection, nothing has been written or
+(inside a `try` with a restoring handler) everything written is put back -/
+def form (s : Setter) : Bool :=
+  (calleesL s.body).all classified && (pathsL s.body).all fun p => rwc p.1
+
+/-- the paths of a setter on which a write is neither preceded by every point of rejection nor undone -/
+def badPaths (s : Setter) : List Path := (pathsL s.body).filter fun p => !rwc p.1
 
 def name (s : Setter) : String × String := (s.cls, s.attr)
 
